@@ -1323,7 +1323,7 @@ impl MacroBranch {
         } else {
             shape.indent.block_indent(&config)
         };
-        let new_width = config.max_width() - body_indent.width();
+        let new_width = config.max_width().saturating_sub(body_indent.width());
         config.set().max_width(new_width);
 
         // First try to format as items, then as statements.
